@@ -213,7 +213,12 @@ class Wsgi:
         c = Consumption(self, f)
         defs = c.defs([f.node])
         params = set(f.params()) - {'self'}
-        names, attrs, work, exprs = set(), set(), list(_names(arg)), [arg]
+
+        def value_names(e):
+            pure = {id(x.func) for x in walk_self(e) if isinstance(x, ast.Call) and isinstance(x.func, ast.Name) and x.func.id in _PURE}
+            return {x.id for x in walk_self(e) if isinstance(x, ast.Name) and id(x) not in pure}
+
+        names, attrs, work, exprs = set(), set(), list(value_names(arg)), [arg]
         while work:
             n = work.pop()
             if n in names or n == 'self':
@@ -223,7 +228,7 @@ class Wsgi:
                 return None             # a caller-supplied size: the cells of R2 decide
             for r in defs.get(n, []):
                 exprs.append(r)
-                work.extend(_names(r))
+                work.extend(value_names(r))
         for e in exprs:
             if self.mentions_budget(e):
                 return None
